@@ -132,8 +132,9 @@ class Site:
 class Program:
     """Whole-program resolver and effect fixpoint."""
 
-    def __init__(self, repo, whitelist=None):
+    def __init__(self, repo, whitelist=None, size_only=False):
         self.repo = repo
+        self.size_only = size_only
         self.Line = repo.cls("Line")
         self.by_name = {}       # method name -> [FuncInfo] (all classes)
         self.setters_by_name = {}
@@ -436,6 +437,83 @@ class FuncAnalysis:
                 return True
         return False
 
+    NONREF_CONTAINERS = {"_data", "_datatype", "_records", "_line_queue",
+                         "_default", "_positional_fieldnames", "__data"}
+
+    def resized_container_is_not_refs(self, node):
+        """ITER mode: the container resized by this statement is certainly
+        not a back-reference list (it is a line's _data/_datatype dict, a
+        field value, the Gfa's registry or queue, a new object, ...)"""
+        recv = None
+        if isinstance(node, ast.Call) and isinstance(node.func, ast.Attribute):
+            recv = node.func.value
+        elif isinstance(node, ast.Subscript):
+            recv = node.value
+        elif isinstance(node, ast.Delete):
+            t = node.targets[0]
+            recv = t.value if isinstance(t, (ast.Subscript, ast.Attribute)) \
+                else None
+        elif isinstance(node, ast.AugAssign):
+            recv = node.target
+        if recv is None:
+            return False
+        return self.container_class(recv, 0) == "nonref"
+
+    def container_class(self, recv, depth):
+        """'nonref' | 'refs' | 'unknown'"""
+        if depth > 8:
+            return "unknown"
+        if isinstance(recv, ast.Attribute):
+            if recv.attr in self.NONREF_CONTAINERS:
+                return "nonref"
+            if recv.attr == "_refs":
+                return "refs"
+            if recv.attr in self.prog.refkeys:
+                return "refs"
+            return self.container_class(recv.value, depth + 1)
+        if isinstance(recv, ast.Subscript):
+            return self.container_class(recv.value, depth + 1)
+        if isinstance(recv, ast.Call):
+            f = recv.func
+            if isinstance(f, ast.Attribute) and f.attr == "get":
+                inner = f.value
+                if isinstance(inner, ast.Attribute) and \
+                        inner.attr in ("_refs", "_records"):
+                    return self.container_class(inner, depth + 1)
+                if isinstance(inner, ast.Subscript):
+                    return self.container_class(inner, depth + 1)
+                return "nonref"     # X.get(fieldname): a field value
+            ent = self.repo.resolve_expr(self.func.module, f) \
+                if dotted(f) else None
+            if isinstance(ent, ClassInfo):
+                return "nonref"     # a newly constructed object
+            return "unknown"
+        if isinstance(recv, ast.Name):
+            if recv.id in self.pnames or recv.id == self.self_name:
+                return "unknown"
+
+            def root_name(e):
+                while isinstance(e, (ast.Attribute, ast.Subscript)):
+                    e = e.value
+                return e.id if isinstance(e, ast.Name) else None
+            assigns = [n.value for n in walk_no_nested(self.func.node)
+                       if isinstance(n, ast.Assign) and any(
+                           isinstance(t, ast.Name) and t.id == recv.id
+                           for t in n.targets)]
+            assigns = [a for a in assigns if root_name(a) != recv.id]
+            if not assigns:
+                return "unknown"
+            kinds = {self.container_class(a, depth + 1) for a in assigns}
+            if kinds == {"nonref"}:
+                return "nonref"
+            if "refs" in kinds:
+                return "refs"
+            return "unknown"
+        if isinstance(recv, (ast.List, ast.Dict, ast.Set, ast.ListComp,
+                             ast.DictComp, ast.SetComp)):
+            return "nonref"
+        return "unknown"
+
     def site_text(self, node):
         t = unparse(node)
         return t if len(t) <= 100 else t[:97] + "..."
@@ -443,6 +521,11 @@ class FuncAnalysis:
     def write(self, value, head, node, kind):
         """Record a write into the object(s) denoted by `value`; `head` names
         the attribute written when the object is a root itself."""
+        if self.prog.size_only:
+            if not size_changing_kind(kind):
+                return
+            if self.resized_container_is_not_refs(node):
+                return
         org = None
         for (r, h, d, k, via) in value:
             if k > 0:
@@ -1322,6 +1405,12 @@ class FuncAnalysis:
         summ = self.prog.summaries.get(callee)
         if summ is None:
             return EMPTY
+        if self.prog.size_only and callee is self.func:
+            # ITER mode: a direct self-recursion on a sub-element (e.g.
+            # _remove_backreference(ref[i], k)) re-applies the same cases one
+            # container level down; it is summarised by the non-recursive
+            # cases so that nesting does not inflate the depth of effects
+            return EMPTY
         amap = {}
         if callee.has_self:
             amap["self"] = recv if recv is not None else EMPTY
@@ -1408,6 +1497,13 @@ def map_value(loc, h_c, d_c, k_c, via_c):
         return (r, h, d0, min(CAP, nk), via_c if k_c > 0 else None)
     head = h if h is not None else h_c
     return (r, head, min(CAP, d0 + d_c - k), k_c, via_c if k_c > 0 else None)
+
+
+def size_changing_kind(kind):
+    """does a write of this kind change the length of a container in place?"""
+    if kind.startswith("mutator:"):
+        return kind.split(":", 1)[1] in SIZE_CHANGING
+    return kind in ("del", "slice-store", "augassign")
 
 
 def join(values):
